@@ -6,7 +6,9 @@ open LunaVerif LunaVerif.Proto LunaVerif.Device LunaVerif.CtrlCyc LunaVerif.Stre
 Line-protocol driver of the CYCLE-level model of `USBControlEndpoint` + multiplexer + `StandardRequestHandler`
 (Model/Usb2/ControlCyc.lean); harness side: harness/props/c07_cyc.py.
 
-config line : `# endpoint_number max_packet_size`
+config line : `# endpoint_number max_packet_size kind n (type index len byte*)*`   kind 0: the descriptor handler is
+              `GetDescriptorHandlerBlock` over these descriptors (insertion order) -- its model runs in the loop;
+              kind 1: another descriptor handler (distributed): the `blk.*` columns echo the inputs
 input line  : tokEp newToken readyForResponse isIn isOut isSetup isPing  rxReady hsAck activeConfig txReady
               received sdAck  su.isIn su.type su.recipient su.request su.value su.index su.length
               dValid dFirst dLast dPayload dStall  tValid tFirst tLast tPayload
@@ -19,9 +21,16 @@ output line : ack nak stall txValid txFirst txLast txPayload txPidToggle address
                                                                   harness compares them with the real transmitter's
                                                                   outputs of the cycle = the inputs tValid … tPayload)
 
+              blk.valid blk.first blk.last blk.payload blk.stall (the block descriptor handler MODEL of
+                                                                  Model/Usb2/ControlCycSys.lean, driven by the model's
+                                                                  wires value / length / start_position / dStart / dReady;
+                                                                  compared with the real handler's outputs of the cycle
+                                                                  = the inputs dValid … dStall)
+
 The control-endpoint model runs OPEN loop on the real transmitter's outputs (as before); next to it the serializer model
-runs on the model's wires.  As long as the four `ser.*` columns agree with the real transmitter in every cycle, the open
-loop IS the closed loop `sysStep` (`sysStep c ⟨cs, ser⟩ i = step c cs (withT i so)` with `so` = the `ser.*` columns).
+and the block descriptor handler model run on the model's wires.  As long as the `ser.*` / `blk.*` columns agree with
+the real streamers in every cycle, the open loop IS the closed loop `sysStep` / `sys2Step`
+(`sys2Step c bc ⟨cs, ser, blk⟩ i = step c cs (withD (withT i so) bo)` with `so`, `bo` = the `ser.*`, `blk.*` columns).
 -/
 
 def parseIn (xs : List Nat) : CycIn :=
@@ -50,11 +59,31 @@ def encodeOut (s : CycState) (o : CycOut) : List Nat :=
    o.h.tMaxLen, o.h.tData0,
    stageCode s.stage, hstateCode s.h.hstate, s.h.startPos, b2n s.h.txPid, b2n s.h.expectingAck]
 
+/-- parse `(ty idx len b0 … b_{len-1})*` -/
+partial def parseDescrs : Nat → List Nat → List Desc.Descr
+  | 0, _ => []
+  | n + 1, ty :: idx :: len :: rest => ⟨ty, idx, rest.take len⟩ :: parseDescrs n (rest.drop len)
+  | _, _ => []
+
+structure DrvState where
+  c  : Cfg
+  bc : Option Desc.Block.Config
+  s  : Sys2State
+
 def main : IO Unit :=
-  runDriver (σ := Cfg × SysState)
-    (fun cfg => ({ epNum := fld cfg 0, maxPacket := fld cfg 1 }, sysInit))
-    (fun (c, s) row =>
+  runDriver (σ := DrvState)
+    (fun cfg =>
+      let c : Cfg := { epNum := fld cfg 0, maxPacket := fld cfg 1 }
+      let bc := if fld cfg 2 = 0 then some ⟨Desc.Rom.layout (parseDescrs (fld cfg 3) (cfg.drop 4)), fld cfg 1⟩ else none
+      ⟨c, bc, sys2Init⟩)
+    (fun st row =>
       let i := parseIn row
-      let (cs', o) := step c s.cs i
-      let (ser', so) := serCycle c s i
-      ((c, { cs := cs', ser := ser' }), encodeOut s.cs o ++ [b2n so.valid, b2n so.first, b2n so.last, so.payload]))
+      let s := st.s
+      let (cs', o) := step st.c s.cs i
+      let (ser', so) := serCycle st.c ⟨s.cs, s.ser⟩ i
+      let (blk', bo) := match st.bc with
+        | some bc => blkCycle st.c bc s.cs s.blk i
+        | none => (s.blk, ⟨i.dValid, i.dFirst, i.dLast, i.dPayload, i.dStall⟩)
+      ({ st with s := { cs := cs', ser := ser', blk := blk' } },
+       encodeOut s.cs o ++ [b2n so.valid, b2n so.first, b2n so.last, so.payload] ++
+         [b2n bo.valid, b2n bo.first, b2n bo.last, bo.payload, b2n bo.stall]))
